@@ -33,9 +33,10 @@ PARSER = 'hail/hail/src/is/hail/expr/ir/Parser.scala'
 # (family, max new nodes, shadowed binder names, shard depth)
 PLAN = {
     'quick': [('value', 3, False, 2), ('strict', 3, False, 2), ('agg', 3, False, 2), ('scan', 3, False, 2),
-              ('value-core', 3, True, 2)],
-    'thorough': [('value-core', 4, False, 3), ('strict', 4, False, 3), ('agg', 4, False, 3), ('scan', 4, False, 3),
-                 ('value', 3, False, 2), ('value-core', 3, True, 2), ('agg', 3, True, 2), ('lam5', 5, False, 3)],
+              ('aggcore', 4, False, 2), ('scancore', 5, False, 3), ('value-core', 3, True, 2)],
+    'thorough': [('strict', 4, False, 3), ('agg', 4, False, 3), ('scan', 4, False, 3), ('bind4', 4, False, 3),
+                 ('let5', 5, False, 4), ('if5', 5, False, 3), ('aggcore', 5, False, 3), ('scancore', 6, False, 4),
+                 ('value', 3, False, 2), ('value-core', 3, True, 2), ('agg', 3, True, 2)],
 }
 WORKERS = 8
 _RANK = ['discharged', 'known', 'not_discharged', 'violated']
@@ -109,7 +110,8 @@ def run(R):
     with cf.ProcessPoolExecutor(max_workers=WORKERS, mp_context=ctx) as ex:
         for r in ex.map(_task, tasks, chunksize=1):
             results.append(r)
-    tot = {'paths': 0, 'with_lets': 0, 'identical_text': 0, 'queries': 0, 'explorer_solver_calls': 0, 'syntactic_ok': 0}
+    tot = {'paths': 0, 'with_lets': 0, 'identical_text': 0, 'queries': 0, 'explorer_solver_calls': 0, 'syntactic_ok': 0,
+           'with_agg_lets': 0, 'with_scan_lets': 0}
     reported = set()
     per_class = {}
     suppressed = {}
@@ -117,11 +119,11 @@ def run(R):
         st = r['stats']
         name = (f"{r['family']}{'/shadowed' if r['shadow'] else ''} N<={r['n']} c[0..]={r['pins']}: "
                 f"CSE text == plain text in value, scope and context")
-        for k in ('paths', 'with_lets', 'identical_text', 'syntactic_ok'):
+        for k in ('paths', 'with_lets', 'identical_text', 'syntactic_ok', 'with_agg_lets', 'with_scan_lets'):
             tot[k] += st[k]
         tot['queries'] += r['queries']
         tot['explorer_solver_calls'] += r['solver_calls_explorer']
-        detail = {'paths': st['paths'], 'paths_with_lifted_lets': st['with_lets'], 'z3_queries': r['queries'],
+        detail = {'paths': st['paths'], 'paths_with_lifted_lets': st['with_lets'], 'paths_with_lifted_AggLets': st['with_agg_lets'] + st['with_scan_lets'], 'z3_queries': r['queries'],
                   'dead_ends': st['dead'], 'explore_s': r['explore_s']}
         status = 'discharged'
         nontrivial = r['reach'] > 0 and st['with_lets'] > 0
@@ -165,6 +167,11 @@ def run(R):
     R.extra['explorer_feasibility_queries'] = tot['explorer_solver_calls']
     R.extra['shapes_where_inlining_cse_lets_gives_plain_tree'] = tot['syntactic_ok']
     R.log(f"[C35] shapes={tot['paths']} with_lets={tot['with_lets']} batch_queries={tot['queries']}")
+    R.extra['shapes_with_lifted_AggLet_agg_scope'] = tot['with_agg_lets']
+    R.extra['shapes_with_lifted_AggLet_scan_scope'] = tot['with_scan_lets']
+    if tot['with_agg_lets'] == 0 or tot['with_scan_lets'] == 0:
+        raise HarnessError('no explored shape had a lifted AggLet in the agg / scan scope: the aggregation-context '
+                           'part of the check would be vacuous')
     if tot['with_lets'] == 0:
         raise HarnessError('no explored shape had a lifted binding: the check would be vacuous')
 
